@@ -14,7 +14,7 @@ STACK = "data_preparation.stack_training_data"
 def stack_obligations(ctx):
     ana = ctx.ana
     fi = ana.func(STACK)
-    b = ana.builder(fi, no_inline=lambda f: True)
+    b = ana.builder(fi, no_inline=ana.known)
     data, W = Sym(fi.params[0]), Sym(fi.params[1])
     T = Idx(Attr(data, "shape"), (tm.ZERO,))
     N = Idx(Attr(data, "shape"), (tm.ONE,))
